@@ -2,6 +2,7 @@
    always one gap-free run starting at the first segment's start offset, the cursor is the offset of its last message, and a
    clean restart recovers exactly that - for every history of operations whose offsets stay below 2^32 and in which no
    message expiry is configured (expiry-based retention needs the read path and monotone time: not covered here). *)
+From Coq Require Import FinFun.
 From IggyV Require Import Base.Tactics Base.ListX Model.Part Proofs.PartBasics.
 Open Scope N_scope.
 
@@ -467,7 +468,8 @@ Proof.
   exfalso. apply (log_msgs_nonempty (b :: br)); [rewrite <- El; apply H5; left; reflexivity | discriminate | exact Hs].
 Qed.
 
-Lemma J_load c now q : 0 < c_seg c -> J q -> (forall s, In s (p_segs q) -> acc_msgs s = []) -> J (load c now q).
+Lemma load_facts c now q : 0 < c_seg c -> J q -> (forall s, In s (p_segs q) -> acc_msgs s = []) ->
+  J (load c now q) /\ abase (load c now q) = abase q /\ first_start (load c now q) = first_start q.
 Proof.
   intros Hseg HJ Hacc. pose proof HJ as [H1 H2 H3 H4 H5 H6 [init [l [E Hl]]] H8].
   set (segs' := set_ends (map (seg_load c now) (p_segs q))).
@@ -529,6 +531,7 @@ Proof.
       assert (Hsome : existsb (fun s => negb (s_size s =? 0)) segs' = true).
       { apply existsb_exists. exists x'. split; [rewrite Esegs; apply in_or_app; right; left; reflexivity | rewrite X7, Hsz; reflexivity]. }
       rewrite Hsome. lia. }
+  split; [|split; [exact Eab | exact Ef]].
   constructor; rewrite ?Eab, ?Ef, ?Eall.
   - rewrite load_segs. exact Hne'.
   - exact H2.
@@ -548,4 +551,175 @@ Proof.
       rewrite Ex' in *. assert (Hlog : s_log l <> []) by (intros Z; rewrite Z in Hne; apply Hne; reflexivity).
       destruct (Hcurx Hlog) as [Hc1 _]. exact Hc1.
   - exact H8.
+Qed.
+
+Lemma restart_facts c now p : 0 < c_seg c -> J p ->
+  J (restart c now p) /\ abase (restart c now p) = abase p /\ first_start (restart c now p) = first_start p /\ part_all (restart c now p) = part_all p.
+Proof.
+  intros Hseg HJ. unfold restart.
+  assert (Hacc : forall s, In s (p_segs (save c p)) -> acc_msgs s = []).
+  { intros s Hs. unfold save in Hs; cbn [p_segs] in Hs. rewrite map_map in Hs. apply in_map_iff in Hs. destruct Hs as (s0 & <- & _). apply seg_persist_acc_empty. }
+  destruct (load_facts c now (save c p) Hseg (J_save c p HJ) Hacc) as [A [B C]].
+  split; [exact A|]. split; [rewrite B; reflexivity|]. split; [|apply restart_all].
+  rewrite C. unfold first_start, save. cbn [p_segs]. destruct (p_segs p) as [|s r]; [reflexivity|]. cbn [map fst]. apply seg_persist_start.
+Qed.
+
+(* ---------- size-based retention ---------- *)
+Lemma chain_from_lb o l : chain_from o l -> Forall (fun x => o <= s_start x) l.
+Proof.
+  revert o; induction l as [|s r IH]; intros o H; [constructor|]. cbn [chain_from] in H. destruct H as [H1 H2]. constructor; [lia|].
+  specialize (IH _ H2). eapply Forall_impl; [|exact IH]. cbn. intros x Hx. lia.
+Qed.
+
+Lemma J_remove_first p now s r :
+  J p -> p_segs p = s :: r -> s_closed s = true -> J (remove_segs p [s] now).
+Proof.
+  intros HJ E Hc. pose proof HJ as [H1 H2 H3 H4 H5 H6 [init [l [El Hl]]] H8].
+  assert (Hs_ne : seg_all s <> []) by (apply H6; [rewrite E; left; reflexivity | exact Hc]).
+  assert (Hch : chain_from (s_start s) (s :: r)) by (unfold chain, first_start in H4; rewrite E in H4; exact H4).
+  cbn [chain_from] in Hch. destruct Hch as [_ Hchr].
+  assert (Hkeep : filter (fun x => negb (existsb (fun v => s_start v =? s_start x) [s])) (p_segs p) = r).
+  { rewrite E. cbn [filter existsb]. rewrite N.eqb_refl. cbn [orb negb].
+    pose proof (chain_from_lb _ _ Hchr) as Hlb. assert (0 < nlen (seg_all s)) by (apply nlen_pos; exact Hs_ne).
+    clear -Hlb H. induction r as [|x r IH]; [reflexivity|]. inversion Hlb as [|y z Hx Hr]; subst. cbn [filter existsb].
+    destruct (N.eqb_spec (s_start s) (s_start x)) as [Eq|_]; [lia|]. cbn [orb negb]. rewrite IH by exact Hr. reflexivity. }
+  assert (Ef0 : first_start p = s_start s) by (unfold first_start; rewrite E; reflexivity).
+  assert (Epall : part_all p = seg_all s ++ flat_map seg_all r) by (unfold part_all; rewrite E; reflexivity).
+  destruct r as [|n r'].
+  - (* the only segment goes: a fresh one takes over at the next offset *)
+    assert (El' : init = [] /\ l = s).
+    { rewrite E in El. destruct init as [|a init']; [injection El as <-; split; reflexivity|]. cbn in El. injection El as _ El. destruct init'; discriminate. }
+    destruct El' as [-> ->]. destruct (lo_closed _ _ Hl Hc) as [Hend _].
+    assert (Esegs : p_segs (remove_segs p [s] now) = [seg_new (s_end s + 1) now]) by (unfold remove_segs; cbn [p_segs last_opt]; rewrite Hkeep; reflexivity).
+    assert (Eab : abase (remove_segs p [s] now) = abase p) by reflexivity.
+    assert (Ef : first_start (remove_segs p [s] now) = abase p) by (unfold first_start; rewrite Esegs; cbn; exact Hend).
+    assert (Ep : part_all (remove_segs p [s] now) = []) by (unfold part_all; rewrite Esegs; reflexivity).
+    constructor; rewrite ?Eab, ?Ef, ?Ep.
+    + rewrite Esegs. discriminate.
+    + exact I.
+    + rewrite nlen_nil. lia.
+    + unfold chain. rewrite Ef, Esegs. cbn. split; [exact Hend | exact I].
+    + intros x Hx. rewrite Esegs in Hx. destruct Hx as [<-|[]]. constructor.
+    + intros x Hx. rewrite Esegs in Hx. destruct Hx as [<-|[]]. cbn. discriminate.
+    + exists [], (seg_new (s_end s + 1) now). split; [exact Esegs|]. constructor; cbn; [exact I | intros a F; discriminate | discriminate | intros F; contradiction].
+    + exact H8.
+  - assert (Esegs : p_segs (remove_segs p [s] now) = n :: r') by (unfold remove_segs; cbn [p_segs]; rewrite Hkeep; reflexivity).
+    assert (Eab : abase (remove_segs p [s] now) = abase p) by reflexivity.
+    assert (Ef : first_start (remove_segs p [s] now) = s_start s + nlen (seg_all s)).
+    { unfold first_start. rewrite Esegs. cbn [chain_from] in Hchr. destruct Hchr as [Hn _]. exact Hn. }
+    assert (Ep : part_all (remove_segs p [s] now) = flat_map seg_all (n :: r')) by (unfold part_all; rewrite Esegs; reflexivity).
+    rewrite Ef0, Epall in *.
+    constructor; rewrite ?Eab, ?Ef, ?Ep.
+    + rewrite Esegs. discriminate.
+    + apply contig_app in H2. apply H2.
+    + rewrite H3, nlen_app. lia.
+    + unfold chain. rewrite Ef, Esegs. exact Hchr.
+    + intros x Hx. rewrite Esegs in Hx. apply H5. rewrite E. right. exact Hx.
+    + intros x Hx. rewrite Esegs in Hx. apply H6. rewrite E. right. exact Hx.
+    + destruct init as [|a init']; [cbn in El; rewrite E in El; injection El as _ El; discriminate|].
+      rewrite E in El. cbn in El. injection El as _ El. exists init', l. split; [rewrite Esegs; exact El | exact Hl].
+    + exact H8.
+Qed.
+
+Lemma J_maintain c now p : c_expiry c = None -> J p -> J (maintain c now p).
+Proof.
+  intros He HJ. unfold maintain. rewrite He.
+  destruct (c_max c); [|exact HJ]. destruct (negb (c_del_oldest c)); [exact HJ|]. destruct (negb (almost_full c p)); [exact HJ|].
+  destruct (p_segs p) as [|s r] eqn:E; [exact HJ|]. destruct (s_closed s) eqn:Ec; [|exact HJ].
+  apply (J_remove_first p now s r HJ E Ec).
+Qed.
+
+(* ---------- every history ---------- *)
+Definition good_cfg (c : cfg) : Prop := 0 < c_seg c /\ c_expiry c = None.
+Definition no_expiry_op (o : op) : Prop := match o with OSetCfg (Some _) _ => False | _ => True end.
+
+Lemma J_new c t0 : J (part_new c t0).
+Proof.
+  constructor; cbn.
+  - discriminate.
+  - exact I.
+  - reflexivity.
+  - unfold chain. cbn. split; [reflexivity | exact I].
+  - intros s [<-|[]]. constructor.
+  - intros s [<-|[]]. cbn. discriminate.
+  - exists [], (seg_new 0 t0). split; [reflexivity|]. constructor; cbn; [exact I | intros a F; discriminate | discriminate | intros F; contradiction].
+  - unfold B32. lia.
+Qed.
+
+Lemma J_store p grp cid v : J p -> J (fst (store_offset p grp cid v)).
+Proof. intros H. unfold store_offset. destruct (p_cur p <? v); [exact H|]. apply (J_ext p); [reflexivity | reflexivity | reflexivity | exact H]. Qed.
+
+Lemma pstep_J c p o : good_cfg c -> J p -> no_expiry_op o ->
+  abase (snd (fst (pstep (c, p) o))) <= B32 -> J (snd (fst (pstep (c, p) o))) /\ good_cfg (fst (fst (pstep (c, p) o))).
+Proof.
+  intros [Hseg Hexp] HJ Hop Hb. destruct o; cbn [pstep] in *.
+  - destruct (append c p now ms) as [p' r] eqn:E. cbn [fst snd] in *. split; [apply (J_append c p now ms p' r HJ E Hb) | split; assumption].
+  - cbn [fst snd]. split; [apply J_flush; exact HJ | split; assumption].
+  - cbn [fst snd]. split; [apply J_save; exact HJ | split; assumption].
+  - cbn [fst snd]. split; [apply (restart_facts c now p Hseg HJ) | split; assumption].
+  - cbn [fst snd]. split; [apply J_purge | split; assumption].
+  - cbn [fst snd]. split; [apply J_maintain; assumption | split; assumption].
+  - cbn [fst snd]. split; [apply (J_ext p); [reflexivity | reflexivity | reflexivity | exact HJ] | split; assumption].
+  - cbn [fst snd]. split; [exact HJ|]. destruct expiry; [contradiction|]. split; [exact Hseg | reflexivity].
+  - cbn [fst snd]. split; [|split; assumption].
+    destruct auto_commit; [|exact HJ]. destruct (last_opt _); [apply J_store; exact HJ | exact HJ].
+  - destruct (store_offset p grp cid o) as [p' r] eqn:E. cbn [fst snd]. split; [|split; assumption].
+    pose proof (J_store p grp cid o HJ) as X. rewrite E in X. exact X.
+  - cbn [fst snd]. split; [exact HJ | split; assumption].
+  - destruct (delete_offset p grp cid) as [p' r] eqn:E. cbn [fst snd]. split; [|split; assumption].
+    unfold delete_offset in E. destruct (assoc cid (offs p grp)); injection E as <- _; [|exact HJ].
+    apply (J_ext p); [reflexivity | reflexivity | reflexivity | exact HJ].
+  - cbn [fst snd]. split; [exact HJ | split; assumption].
+Qed.
+
+Fixpoint prun_states (cp : cfg * part) (ops : list op) : list part :=
+  match ops with [] => [] | o :: r => let cp' := fst (pstep cp o) in snd cp' :: prun_states cp' r end.
+Definition pfinal (cp : cfg * part) (ops : list op) : cfg * part := fold_left (fun cp o => fst (pstep cp o)) ops cp.
+
+Lemma pfinal_cons cp o r : pfinal cp (o :: r) = pfinal (fst (pstep cp o)) r.
+Proof. reflexivity. Qed.
+Lemma prun_states_cons cp o r : prun_states cp (o :: r) = snd (fst (pstep cp o)) :: prun_states (fst (pstep cp o)) r.
+Proof. reflexivity. Qed.
+
+Theorem history_J : forall ops c p, good_cfg c -> J p -> Forall no_expiry_op ops ->
+  Forall (fun q => abase q <= B32) (prun_states (c, p) ops) -> J (snd (pfinal (c, p) ops)) /\ good_cfg (fst (pfinal (c, p) ops)).
+Proof.
+  induction ops as [|o r IH]; intros c p Hc HJ Hops Hb; [split; assumption|].
+  rewrite pfinal_cons. rewrite prun_states_cons in Hb. pose proof (Forall_inv Hops) as Ho. pose proof (Forall_inv_tail Hops) as Hr.
+  pose proof (Forall_inv Hb) as Hb1. pose proof (Forall_inv_tail Hb) as Hb2. cbv beta in Hb1.
+  destruct (pstep_J c p o Hc HJ Ho Hb1) as [HJ' Hc']. destruct (fst (pstep (c, p) o)) as [c' p']. cbn [fst snd] in HJ', Hc'.
+  apply IH; assumption.
+Qed.
+
+(* ---------- consequences ---------- *)
+Lemma contig_offsets o l : contig o l -> map m_off l = map (fun i => o + N.of_nat i) (seq 0 (length l)).
+Proof.
+  revert o; induction l as [|m r IH]; intros o H; [reflexivity|]. destruct H as [Hm Hr]. cbn [map length seq]. f_equal; [lia|].
+  rewrite (IH _ Hr). rewrite <- seq_shift, map_map. apply map_ext. intros i. lia.
+Qed.
+Lemma contig_nodup o l : contig o l -> NoDup (map m_off l).
+Proof.
+  intros H. rewrite (contig_offsets _ _ H). apply Injective_map_NoDup; [intros a b E; lia | apply seq_NoDup].
+Qed.
+
+(* size-based retention removes a prefix of whole segments: what remains is a suffix of the log *)
+Lemma maintain_suffix c now p : c_expiry c = None -> J p -> exists pre, part_all p = pre ++ part_all (maintain c now p).
+Proof.
+  intros He HJ. unfold maintain. rewrite He.
+  destruct (c_max c); [|exists []; reflexivity]. destruct (negb (c_del_oldest c)); [exists []; reflexivity|].
+  destruct (negb (almost_full c p)); [exists []; reflexivity|].
+  destruct (p_segs p) as [|s r] eqn:E; [exists []; reflexivity|]. destruct (s_closed s) eqn:Ec; [|exists []; reflexivity].
+  pose proof HJ as [H1 H2 H3 H4 H5 H6 H7 H8].
+  assert (Hs_ne : seg_all s <> []) by (apply H6; [rewrite E; left; reflexivity | exact Ec]).
+  assert (Hch : chain_from (s_start s) (s :: r)) by (unfold chain, first_start in H4; rewrite E in H4; exact H4).
+  cbn [chain_from] in Hch. destruct Hch as [_ Hchr].
+  assert (Hkeep : filter (fun x => negb (existsb (fun v => s_start v =? s_start x) [s])) (p_segs p) = r).
+  { rewrite E. cbn [filter existsb]. rewrite N.eqb_refl. cbn [orb negb].
+    pose proof (chain_from_lb _ _ Hchr) as Hlb. assert (0 < nlen (seg_all s)) by (apply nlen_pos; exact Hs_ne).
+    clear -Hlb H. induction r as [|x r IH]; [reflexivity|]. inversion Hlb as [|y z Hx Hr]; subst. cbn [filter existsb].
+    destruct (N.eqb_spec (s_start s) (s_start x)) as [Eq|_]; [lia|]. cbn [orb negb]. rewrite IH by exact Hr. reflexivity. }
+  unfold part_all at 1. rewrite E. cbn [flat_map].
+  unfold remove_segs, part_all. cbn [p_segs]. rewrite Hkeep. destruct r as [|n0 r'].
+  - exists (seg_all s). cbn. rewrite app_nil_r. reflexivity.
+  - exists (seg_all s). reflexivity.
 Qed.
